@@ -41,6 +41,9 @@ structure ATx where
   hasAuxDataHash : Bool
   metadata : List (Int × Metadatum)
   redeemers : List ((Nat × Nat) × PData)    -- ((tag, index), data); tags: 0 spend 1 mint 3 reward
+  /-- plutus witness scripts, per language version, in template order -/
+  plutusScripts : List (Nat × List Bytes) := []
+  nativeScripts : Nat := 0
   deriving Repr
 
 structure CompileEnv where
@@ -439,14 +442,23 @@ def nativeWitnessOk (t : Tx) : Outcome Nat := do
   if scripts.all (fun b => b.length = 32 && b.take 4 == [0x82, 0x00, 0x58, 0x1c]) then .ok scripts.length
   else .err "FormatError"
 
-def plutusWitnessVersions (t : Tx) : List Nat :=
+/-- `compile_adhoc_plutus_witness::<V>`: the scripts of the `plutus_witness` directives whose
+version is `V`, in template order. -/
+def plutusWitnesses (t : Tx) : List (Nat × Bytes) :=
   (t.adhoc.filter fun d => adhocName d == "plutus_witness").filterMap fun d =>
     match adhocGet d "version", adhocGet d "script" with
     | some v, some s =>
       (match exprIntoNumberC v, exprIntoBytes s with
-       | .ok n, .ok _ => if n = 1 || n = 2 || n = 3 then some n.toNat else none
+       | .ok n, .ok b => if n = 1 || n = 2 || n = 3 then some (n.toNat, b) else none
        | _, _ => none)
     | _, _ => none
+
+def plutusWitnessVersions (t : Tx) : List Nat := (plutusWitnesses t).map (·.1)
+
+def plutusScriptsByVersion (t : Tx) : List (Nat × List Bytes) :=
+  [1, 2, 3].filterMap fun v =>
+    let ss := ((plutusWitnesses t).filter fun x => x.1 = v).map (·.2)
+    if ss.isEmpty then none else some (v, ss)
 
 def exprIntoMetadatum : Expr → Outcome Metadatum
   | .leaf (.number n) =>
@@ -491,7 +503,7 @@ def compileAbs (env : CompileEnv) (t : Tx) : Outcome ATx := do
   let signers ← compileRequiredSigners t
   let donation ← compileDonation t
   let redeemers ← compileRedeemers env t inputs mint ws
-  let _native ← nativeWitnessOk t
+  let native ← nativeWitnessOk t
   let metadata ← compileAuxiliaryData t
   -- script data hash: the cost model of the inferred version is needed only with redeemers
   if !redeemers.isEmpty && !(env.costModels.contains (inferPlutusVersion t)) then .err "MissingExpression" else
@@ -499,6 +511,6 @@ def compileAbs (env : CompileEnv) (t : Tx) : Outcome ATx := do
         collateral := coll, requiredSigners := signers, referenceInputs := refs,
         networkId := some (if env.mainnet then 1 else 0), donation, certs,
         hasScriptDataHash := !redeemers.isEmpty, hasAuxDataHash := !metadata.isEmpty,
-        metadata, redeemers }
+        metadata, redeemers, plutusScripts := plutusScriptsByVersion t, nativeScripts := native }
 
 end Tx3
